@@ -29,12 +29,12 @@ func newNode() *Node {
 }
 
 func (n *Node) insert(topic format.Topic, msg []byte) (bool, error) {
-	topic, token := topic.Next()
-	if token == "" {
+	if topic == nil {
 		old := len(n.Buf) > 0
 		n.Buf = msg
 		return old, nil
 	}
+	topic, token := topic.Next()
 
 	if n.Children == nil {
 		n.Children = make(map[string]*Node)
@@ -50,11 +50,11 @@ func (n *Node) insert(topic format.Topic, msg []byte) (bool, error) {
 }
 
 func (n *Node) remove(topic format.Topic) error {
-	topic, token := topic.Next()
-	if token == "" {
+	if topic == nil {
 		n.Buf = nil
 		return nil
 	}
+	topic, token := topic.Next()
 	if n.Children == nil {
 		n.Children = make(map[string]*Node)
 	}
@@ -81,13 +81,13 @@ func (n *Node) count(counter int) int {
 	return counter
 }
 func (n *Node) match(topic format.Topic, msgs *[][]byte) error {
-	topic, token := topic.Next()
-	if token == "" {
+	if topic == nil {
 		if n.Buf != nil && len(n.Buf) > 0 {
 			*msgs = append(*msgs, n.Buf)
 		}
 		return nil
 	}
+	topic, token := topic.Next()
 	if token == MWC {
 		n.allRetained(msgs)
 	} else if token == SWC {
